@@ -945,6 +945,29 @@ namespace logmessage::config
         output.append(msg);
         return output;
     }
+    std::string InheritanceCycleRefused::formatMessage() const
+    {
+        auto output = m_location.format();
+        const auto message_a = "The provided inherited config node inherits from the class itself, base class left unchanged (class "sv;
+        const auto message_b = " : "sv;
+        const auto message_c = ")."sv;
+
+        output.reserve(
+            output.length()
+            + message_a.length()
+            + node_name.length()
+            + message_b.length()
+            + parent_name.length()
+            + message_c.length()
+        );
+
+        output.append(message_a);
+        output.append(node_name);
+        output.append(message_b);
+        output.append(parent_name);
+        output.append(message_c);
+        return output;
+    }
     std::string InheritedParentNotFound::formatMessage() const
     {
         auto output = m_location.format();
